@@ -22,7 +22,7 @@ RULE = ('a case = one request in a history on one configuration (reply compared 
         'non-trivial = the request addressed an existing tag and a reply was decoded and compared')
 ASSUMPTIONS = ['reply budget 488 bytes (Logix.MAX_BYTES default)', 'string arrays kept <= 5 elements (the budget arithmetic for variable-length elements is an estimate in the library)']
 REQUIRED = ['requests', 'service:read_tag', 'service:read_frag', 'service:write_tag', 'service:write_frag', 'service:get_attribute_single', 'service:set_attribute_single',
-            'path:symbolic', 'path:numeric', 'path:case-varied', 'tag:scalar', 'tag:array', 'tag:larger-than-one-reply', 'tag:shared-instance', 'tag:aliased-attribute', 'tag:latin1-near-homonyms', 'tag:explicit-in-allocation-instance',
+            'path:symbolic', 'path:numeric', 'path:case-varied', 'tag:scalar', 'tag:array', 'tag:larger-than-one-reply', 'tag:shared-instance', 'tag:aliased-attribute', 'tag:latin1-near-homonyms', 'tag:explicit-in-allocation-instance', 'history:confusable-values',
             'status:0x00', 'status:0x06', 'status:0xff', 'monitor:state-compare', 'monitor:reply-compare', 'tcp:configs', 'tcp:second-session-compare',
             'type:' + 'STRING', 'type:BOOL', 'type:LREAL', 'type:ULINT', 'write:narrower-source-type']
 TIMEOUT = {'quick': 300, 'thorough': 2400}
@@ -48,7 +48,7 @@ def classify(ctx, cfg, req):
         c('path:numeric')
 
 
-def run_history(ctx, cfg, nreq, tcp):
+def run_history(ctx, cfg, nreq, tcp, script=None):
     from vlib import simdrv, reqgen, refcodec as rc, arraymodel, simcheck
     rng = ctx.rng
     model = arraymodel.Model(cfg)
@@ -78,7 +78,10 @@ def run_history(ctx, cfg, nreq, tcp):
         else:
             sim = simdrv.Sim(cfg)
         for k in range(nreq):
-            label, req = reqgen.gen_request(rng, cfg, p_invalid=0.2, allow_unknown=False)
+            if script is not None:
+                label, req = script[k]
+            else:
+                label, req = reqgen.gen_request(rng, cfg, p_invalid=0.2, allow_unknown=False)
             cip = rc.enc_request(req)
             wit['history'].append(req)
             if tcp:
@@ -148,9 +151,38 @@ def gen_cfg(rng, big=False, share=False, router=False):
     return [(n, t, min(s, 5) if t in ('SSTRING', 'STRING') else s, a) for n, t, s, a in cfg]
 
 
+def confusable_values(ctx, tcp=False):
+    """Reads by every service after a write that replaces a value by one that is different but indistinguishable to Python's ==/hash
+    (hash(-1) == hash(-2), hash(0) == hash(2**61-1), hash(1.0) == hash(2.0**61), 0.0 == -0.0): whatever the simulator remembers
+    about a tag between requests must be keyed by the values themselves."""
+    from vlib import refcodec as rc
+    pairs = {'SINT': (-1, -2), 'INT': (-1, -2), 'DINT': (-1, -2), 'LINT': (0, 2**61 - 1), 'ULINT': (0, 2**61 - 1), 'LREAL': (1.0, 2.0 ** 61), 'REAL': (0.0, -0.0), 'UDINT': (1, 2)}
+    cfg = [('Hs_' + t, t, n, '0x99/1/%d' % (k + 1)) for k, (t, n) in enumerate([('DINT', 4), ('INT', 1), ('LINT', 3), ('LREAL', 2), ('REAL', 2), ('ULINT', 2), ('SINT', 3), ('UDINT', 2)])]
+    script = []
+    for name, t, n, address in cfg:
+        a, b = pairs[t]
+        sym = [{'symbolic': name}]
+        num = [{'class': 0x99}, {'instance': 1}, {'attribute': int(address.rsplit('/', 1)[1])}]
+        code = rc.NAME2CODE[t]
+        for first, second in ((a, b), (b, a)):
+            script.append(('write', {'path': {'segment': sym}, 'write_tag': {'type': code, 'elements': n, 'data': [first] * n}}))
+            script.append(('attr', {'path': {'segment': num}, 'get_attribute_single': True}))
+            script.append(('read', {'path': {'segment': sym}, 'read_tag': {'elements': n}}))
+            script.append(('write', {'path': {'segment': sym + [{'element': n - 1}]}, 'write_tag': {'type': code, 'elements': 1, 'data': [second]}}))
+            script.append(('attr', {'path': {'segment': num}, 'get_attribute_single': True}))
+            script.append(('read', {'path': {'segment': sym}, 'read_frag': {'elements': n, 'offset': 0}}))
+            script.append(('attr', {'path': {'segment': num[:2]}, 'get_attributes_all': True}) if False else ('attr', {'path': {'segment': num}, 'get_attribute_single': True}))
+    ctx.count('history:confusable-values')
+    run_history(ctx, cfg, len(script), tcp, script=script)
+
+
 def run(ctx):
     rng = ctx.rng
     quick = ctx.tier == 'quick'
+    if ctx.shard == 0:
+        confusable_values(ctx)
+    elif ctx.shard == 1:
+        confusable_values(ctx, tcp=True)
     i = 0
     while not ctx.expired():
         i += 1
